@@ -159,3 +159,14 @@ claim('C20', 'other',
       'directions; the sign-translation tables are consistent. Agreement with RDKit\'s own semantics is NOT decided.',
       'trusts: RDKit API names as written in utils/rdkit.py',
       'DESIGN.md 4/C20')
+claim('C10', 'other',
+      'bit-provenance abstract interpretation of the straight-line integer code of both .pyx codecs (text -> cast stripping -> ast), '
+      'comparison with the published field table; linear-form normalisation of the size arithmetic of writer / reader / '
+      'pack_len; literal-table comparison of the duplicated isotope tables; limit guards; negative-count slices',
+      'decides: every bit of every field of the 9-byte atom record and the header sits where the published version-2 layout '
+      'puts it, in the writer and in the reader; stereo / hydrogen / charge code books agree; section sizes of writer, reader '
+      '(v2 and v0) and pack_len agree; the two isotope tables equal each other and the element data; every tabulated isotope, '
+      'charge and hydrogen count is representable; the documented limits are enforced; reaction roles are cut with non-negative '
+      'offsets. Float16 accuracy, the connection-table / order bit streams, zlib and the shipped corpus are NOT decided.',
+      'trusts: the published layout table; regex-level extraction of the .pyx statements (fail-closed)',
+      'DESIGN.md 3.D, 4/C10')
